@@ -60,12 +60,12 @@ def startup_case(ctx, faults, script_fault, sanity_ok, sanity_mode='exit1'):
     os.mkdir(tmp)
     names = []
     for i, f in enumerate(faults):
-        n = f'tc{i}.c' if i != 1 else 'sub/tc1.c'
+        n = f'tc{i}.c' if i == 0 else 'sub/tc1.c' if i == 1 else 'b{r}/tc{%d}.c' % i      # (braces: the name ends up in messages)
         p = os.path.join(work, n)
         os.makedirs(os.path.dirname(p), exist_ok=True)
         if f != 'missing':
             with open(p, 'w') as fh:
-                fh.write('int keep;\n')
+                fh.write('' if sanity_mode == 'empty' else 'int keep;\n')
         if f == 'unreadable':
             os.chmod(p, 0o200)
         if f == 'unwritable':
@@ -76,7 +76,7 @@ def startup_case(ctx, faults, script_fault, sanity_ok, sanity_mode='exit1'):
     script = os.path.join(work, 'test.sh')
     if script_fault != 'missing':
         with open(script, 'w') as fh:
-            if sanity_ok or sanity_mode == 'exit1':
+            if sanity_ok or sanity_mode in ('exit1', 'empty'):
                 fh.write('#!/bin/sh\nexit %d\n' % (0 if sanity_ok else 1))
             elif sanity_mode == 'also':
                 fh.write('#!/bin/sh\nexit 7\n')          # the --also-interesting code is NOT "interesting"
@@ -85,7 +85,7 @@ def startup_case(ctx, faults, script_fault, sanity_ok, sanity_mode='exit1'):
                 fh.write('#!/bin/sh\nprintf \'\\377\\376 caf\\351 \\303\\050\\n\'\nprintf \'\\200\\201 error\\n\' >&2\nexit 1\n')
             else:
                 # an uninteresting input whose test also writes to its own copy of the input
-                fh.write('#!/bin/sh\nfor f in tc0.c sub/tc1.c tc2.c; do [ -f "$f" ] && echo scribble >> "$f"; done\nexit 1\n')
+                fh.write('#!/bin/sh\nfor f in tc0.c sub/tc1.c "b{r}/tc{2}.c"; do [ -f "$f" ] && echo scribble >> "$f"; done\nexit 1\n')
         os.chmod(script, 0o644 if script_fault == 'noexec' else 0o755)
     for dp, dns, fns in os.walk(base):
         os.chown(dp, 65534, 65534)
@@ -179,7 +179,7 @@ def explore(ctx):
             cases.append((coq_env(faults, script_fault, sanity_ok, names), out))
     # an uninteresting input must be refused also when the test answers with the --also-interesting code, and a test
     # that writes to its copy of the input must not reach the user's files (same file system: TMPDIR next to the work dir)
-    for mode in ('also', 'scribble', 'noise'):
+    for mode in ('also', 'scribble', 'noise', 'empty'):
         for faults in (('ok',), ('ok', 'ok'), ('ok', 'ok', 'ok')):
             res, names = startup_case(ctx, faults, 'ok', False, sanity_mode=mode)
             ctx.evaluations += 1
@@ -187,7 +187,7 @@ def explore(ctx):
             ctx.count('startup:InsaneTestCaseError:' + mode)
             rep = {'faults': list(faults), 'script': 'ok', 'sanity_ok': False, 'sanity_mode': mode}
             if res['exc'] != 'InsaneTestCaseError':
-                ctx.violation(f'wrong-error:InsaneTestCaseError:got-{res["exc"]}', f'uninteresting input, test {"exits with the also-interesting code 7" if mode == "also" else "exits 1 after printing bytes that are not UTF-8" if mode == "noise" else "exits 1 after appending to its input"}: expected InsaneTestCaseError, got {res["exc"]}', rep)
+                ctx.violation(f'wrong-error:InsaneTestCaseError:got-{res["exc"]}', f'uninteresting input, test {"exits with the also-interesting code 7" if mode == "also" else "exits 1 after printing bytes that are not UTF-8" if mode == "noise" else "rejects the (empty) test cases" if mode == "empty" else "exits 1 after appending to its input"}: expected InsaneTestCaseError, got {res["exc"]}', rep)
             if not res.get('unchanged'):
                 ctx.violation('startup-side-effect', f'uninteresting input ({mode}): the working directory changed although start-up was refused', rep)
     ctx.sample({'misuse': ['ok', 'unreadable'], 'expected': 'InvalidTestCaseError naming sub/tc1.c, access R_OK'})
